@@ -390,7 +390,7 @@ func (m *Machine) evalArgs(fr *frame, args []Arg) []Value {
 	for i, a := range args {
 		// each argument is transferred to the callee (an independent copy)
 		// right after it has been evaluated
-		out[i] = Copy(m.eval(fr, a.E))
+		out[i] = m.transfer(m.eval(fr, a.E))
 	}
 	return out
 }
@@ -450,10 +450,10 @@ func (m *Machine) exec(fr *frame, s Stmt) ctrl {
 	m.tick()
 	switch s := s.(type) {
 	case Let:
-		fr.env.declare(s.Name, Copy(m.eval(fr, s.Init)))
+		fr.env.declare(s.Name, m.transfer(m.eval(fr, s.Init)))
 	case Assign:
 		lv := m.lvalue(fr, s.Target)
-		v := Copy(m.eval(fr, s.Value))
+		v := m.transfer(m.eval(fr, s.Value))
 		lv.set(v)
 	case Swap:
 		l := m.lvalue(fr, s.L)
@@ -473,9 +473,9 @@ func (m *Machine) exec(fr *frame, s Stmt) ctrl {
 			return m.scoped(fr, s.Else, nil)
 		}
 	case IfLet:
-		v := m.eval(fr, s.Init)
+		v := m.transfer(m.eval(fr, s.Init)) // a variable declaration: converts (see transfer)
 		if _, isNil := v.(NilV); !isNil {
-			c := Copy(v)
+			c := v
 			return m.scoped(fr, s.Then, func(e *env) { e.declare(s.Name, c) })
 		} else if s.Else != nil {
 			return m.scoped(fr, s.Else, nil)
@@ -508,7 +508,7 @@ func (m *Machine) exec(fr *frame, s Stmt) ctrl {
 		}
 	case Return:
 		if s.E != nil {
-			fr.ret = Copy(m.eval(fr, s.E))
+			fr.ret = m.transfer(m.eval(fr, s.E))
 		}
 		return ctrlReturn
 	case ExprStmt:
@@ -637,6 +637,38 @@ func (m *Machine) evalBool(fr *frame, e Expr) bool {
 
 func isNil(v Value) bool { _, ok := v.(NilV); return ok }
 
+// Nested optionals: some(v) is represented by v itself unless v is nil or
+// some(nil)..., which are wrapped in SomeV (so nil, some(nil), some(some(nil))
+// stay distinguishable while some(5) == some(some(5)) == 5 needs no boxing).
+func wrap(v Value) Value {
+	switch v.(type) {
+	case NilV, SomeV:
+		return SomeV{V: v}
+	}
+	return v
+}
+
+func unwrap(v Value) Value {
+	if s, ok := v.(SomeV); ok {
+		return s.V
+	}
+	return v
+}
+
+// transfer copies a value that is moved to a new place (variable, argument,
+// result, container element). Every transfer converts the value to the target
+// type, and cadence's boxing rule is that a nested nil is unboxed: some(nil)
+// (e.g. the result of x?.m() where m returned nil) becomes nil when it is bound
+// to a variable, passed or returned — it is only observable by an operator
+// applied directly to the expression that produced it (??, !).
+func (m *Machine) transfer(v Value) Value {
+	if _, ok := v.(SomeV); ok {
+		m.notes["some-nil-collapsed"]++
+		return NilV{}
+	}
+	return Copy(v)
+}
+
 // viaRef: a member/element read through a reference yields a reference when
 // the member is itself a container or composite.
 func viaRef(recv Value, child Value) Value {
@@ -699,7 +731,10 @@ func (m *Machine) eval(fr *frame, e Expr) Value {
 		if isNil(x) {
 			fail(FailForceNil)
 		}
-		return x
+		if _, ok := x.(SomeV); ok {
+			m.notes["force-some-nil"]++
+		}
+		return unwrap(x)
 	case Cast:
 		x := m.eval(fr, e.X)
 		switch e.Op {
@@ -762,13 +797,17 @@ func (m *Machine) eval(fr *frame, e Expr) Value {
 			}
 			return NilV{} // arguments are not evaluated
 		}
+		if e.Opt {
+			// x?.m(..) has type (result type)?: an optional result is wrapped once more
+			return wrap(m.invoke(fr, recv, e.Name, e.Args))
+		}
 		return m.invoke(fr, recv, e.Name, e.Args)
 	case New:
 		return m.construct(fr, e)
 	case ArrLit:
 		a := &ArrV{T: e.T, Elems: make([]Value, 0, len(e.Elems))}
 		for _, x := range e.Elems {
-			a.Elems = append(a.Elems, Copy(m.eval(fr, x)))
+			a.Elems = append(a.Elems, m.transfer(m.eval(fr, x)))
 		}
 		return a
 	case DictLit:
@@ -776,7 +815,7 @@ func (m *Machine) eval(fr *frame, e Expr) Value {
 		for i := range e.Keys {
 			k := m.eval(fr, e.Keys[i])
 			v := m.eval(fr, e.Vals[i])
-			d.insert(Copy(k), Copy(v))
+			d.insert(m.transfer(k), m.transfer(v))
 		}
 		return d
 	case RefOf:
@@ -981,7 +1020,10 @@ func (m *Machine) binary(fr *frame, e Binary) Value {
 		l := m.eval(fr, e.L)
 		if !isNil(l) {
 			m.skipped(e.R)
-			return l
+			if _, ok := l.(SomeV); ok {
+				m.notes["coalesce-some-nil"]++ // some(nil) is not nil: the result is the inner nil
+			}
+			return unwrap(l)
 		}
 		return m.eval(fr, e.R)
 	}
